@@ -385,7 +385,9 @@ func (a *act) applyContract(fs *FuncSpec, fn *ssa.Function, args []Val, cs callS
 		henv.vars = env.vars
 		henv.fnScope = fn
 		wild := false
-		if fs.NoFrame && len(fs.Modifies) == 0 && len(fs.GhostSets) == 0 {
+		if fs.TrustFrame {
+			e.cur.trustedUsed[name+" (frame assumed, not checked)"] = true
+		} else if fs.NoFrame && len(fs.Modifies) == 0 && len(fs.GhostSets) == 0 {
 			// `noframe` without a modifies clause: the body's writes are neither declared nor checked, so a caller
 			// must not assume that anything survives the call
 			a.havocAll(post)
